@@ -209,6 +209,10 @@ def _construct_related_types(etype: tp.ParameterizedType, types, get_subtypes,
                 return etype
             # Type argument should not be primitives.
             t_args = [t for t in t_args if not t.is_primitive()]
+            if not t_args:
+                # Only primitive candidates (e.g., the element type of a
+                # primitive array): give back the given type.
+                return etype
             t_arg = utils.random.choice(t_args)
             type_var_map[t_param] = t_arg
     return etype.t_constructor.new(list(type_var_map.values()))
